@@ -644,6 +644,21 @@ impl World {
         self.note("update_config(unchanged configuration)".into());
     }
 
+    /// true once every background run spawned so far has ended, decided without relying on the run passing its last
+    /// yield point: every spawned run has entered `Worker::run` (entry point hits) and the worker lock could be taken
+    /// afterwards (`update_config` with the unchanged configuration blocks until the run holding it is over)
+    pub fn runs_finished_barrier(&mut self, ms: u64) -> bool {
+        let deadline = Instant::now() + Duration::from_millis(ms);
+        while hits(Point::RunEntry) < hits(Point::TickBeforeSpawn) {
+            if Instant::now() >= deadline {
+                return false;
+            }
+            std::thread::sleep(Duration::from_micros(100));
+        }
+        self.update_config_same();
+        true
+    }
+
     pub fn restart(&mut self, clear: bool) {
         // remember what the snapshot looks like: with clear=false it must stay exactly like this
         let snap = self.nucleo.as_ref().unwrap().snapshot();
